@@ -1,0 +1,161 @@
+//go:build verif
+
+package main
+
+import (
+	"encoding/json"
+	"flag"
+	"go/ast"
+	"go/token"
+	"go/types"
+	"io"
+	"log"
+	"os"
+	"runtime"
+	"testing"
+
+	"github.com/go-critic/go-critic/linter"
+)
+
+// TestVerifDriver lets external conformance tooling evaluate the unexported
+// routines of the check command on specification-generated cases.
+// It does nothing unless VERIF_DRIVER_IN names a request file.
+//
+// Request: {"op": ..., "registry": [{"name","tags"}...], "cases": [...]}.
+// The "registry" entries are registered as additional checkers with trivial
+// constructors, so that sweeps over thousands of configurations do not pay
+// for the construction of rule engines; the selection logic cannot tell.
+func TestVerifDriver(t *testing.T) {
+	in := os.Getenv("VERIF_DRIVER_IN")
+	if in == "" {
+		t.Skip("VERIF_DRIVER_IN not set")
+	}
+	data, err := os.ReadFile(in)
+	if err != nil {
+		t.Fatal(err)
+	}
+	var req struct {
+		Op       string
+		Registry []struct {
+			Name string
+			Tags []string
+		}
+		Cases []json.RawMessage
+	}
+	if err := json.Unmarshal(data, &req); err != nil {
+		t.Fatal(err)
+	}
+	coll := &linter.CheckerCollection{}
+	for _, r := range req.Registry {
+		info := &linter.CheckerInfo{Name: r.Name, Tags: r.Tags, Summary: "stand-in", Before: "x", After: "y"}
+		coll.AddChecker(info, func(*linter.CheckerContext) (linter.FileWalker, error) {
+			return verifNopWalker{}, nil
+		})
+	}
+	log.SetOutput(io.Discard)
+	var out []interface{}
+	for _, raw := range req.Cases {
+		switch req.Op {
+		case "selection":
+			out = append(out, verifSelection(t, raw))
+		case "shorten":
+			out = append(out, verifShorten(t, raw))
+		case "generated":
+			out = append(out, verifGenerated(t, raw))
+		default:
+			t.Fatalf("unknown op %q", req.Op)
+		}
+	}
+	res, err := json.Marshal(out)
+	if err != nil {
+		t.Fatal(err)
+	}
+	if err := os.WriteFile(os.Getenv("VERIF_DRIVER_OUT"), res, 0o644); err != nil {
+		t.Fatal(err)
+	}
+}
+
+type verifNopWalker struct{}
+
+func (verifNopWalker) WalkFile(*ast.File) {}
+
+// verifSelection runs the real configuration pipeline up to initCheckers
+// (everything except loading packages) on one argument vector.
+func verifSelection(t *testing.T, raw json.RawMessage) interface{} {
+	var c struct {
+		ID   string
+		Args []string
+	}
+	if err := json.Unmarshal(raw, &c); err != nil {
+		t.Fatal(err)
+	}
+	var constructed []string
+	linter.VerifRecorder = func(e *linter.VerifEvent) {
+		if e.Ev == "New" {
+			constructed = append(constructed, e.Checker)
+		}
+	}
+	defer func() { linter.VerifRecorder = nil }()
+
+	var p program
+	p.flagSet = flag.NewFlagSet("go-critic", flag.ContinueOnError)
+	p.flagSet.SetOutput(io.Discard)
+	p.infoList = linter.GetCheckersInfo()
+	res := map[string]interface{}{"id": c.ID}
+	steps := []struct {
+		name string
+		fn   func() error
+	}{
+		{"bind checker params", p.bindCheckerParams},
+		{"bind default enabled list", p.bindDefaultEnabledList},
+		{"parse args", func() error { return p.parseArgs(c.Args) }},
+		{"assign checker params", p.assignCheckerParams},
+		{"load program (context only)", func() error {
+			p.ctx = linter.NewContext(token.NewFileSet(), types.SizesFor("gc", runtime.GOARCH))
+			return nil
+		}},
+		{"init checkers", p.initCheckers},
+	}
+	for _, s := range steps {
+		if err := s.fn(); err != nil {
+			res["errStep"] = s.name
+			res["err"] = err.Error()
+			break
+		}
+	}
+	var selected []string
+	for _, ch := range p.checkers {
+		selected = append(selected, ch.Info.Name)
+	}
+	res["selected"] = selected
+	res["constructed"] = constructed
+	return res
+}
+
+func verifShorten(t *testing.T, raw json.RawMessage) interface{} {
+	var c struct {
+		ID, Wd, Gopath, Goroot, Loc string
+	}
+	if err := json.Unmarshal(raw, &c); err != nil {
+		t.Fatal(err)
+	}
+	p := program{workDir: addTrailingSlash(c.Wd), gopath: addTrailingSlash(c.Gopath), goroot: addTrailingSlash(c.Goroot)}
+	return map[string]interface{}{"id": c.ID, "out": p.shortenLocation(c.Loc)}
+}
+
+func verifGenerated(t *testing.T, raw json.RawMessage) interface{} {
+	var c struct {
+		ID, Src string
+	}
+	if err := json.Unmarshal(raw, &c); err != nil {
+		t.Fatal(err)
+	}
+	fset := token.NewFileSet()
+	f, err := parseForVerif(fset, c.Src)
+	if err != nil {
+		return map[string]interface{}{"id": c.ID, "err": err.Error()}
+	}
+	var p program
+	p.fset = fset
+	return map[string]interface{}{"id": c.ID, "generated": p.isGenerated(f)}
+}
